@@ -5,11 +5,21 @@ package mavl
 // Add-only export shims for the /verif checks C01..C05.
 
 import (
+	"reflect"
 	"sort"
 	"sync"
+	"unsafe"
 
+	dbm "github.com/33cn/chain33/common/db"
 	mavl "github.com/33cn/chain33/system/store/mavl/db"
 )
+
+// VerifSetDB replaces the database object of a Store (BaseStore.db is unexported in another
+// package, hence reflection). Used to put a thin adapter around the in-memory backend.
+func VerifSetDB(s *Store, db dbm.DB) {
+	f := reflect.ValueOf(s.BaseStore).Elem().FieldByName("db")
+	reflect.NewAt(f.Type(), unsafe.Pointer(f.UnsafeAddr())).Elem().Set(reflect.ValueOf(db))
+}
 
 // VerifRestart returns a new Store object on the database of an existing one, with an empty set
 // of pending trees: what a process restart leaves of a store whose database survives (used with
